@@ -2,6 +2,7 @@ import HapVerif.Model.Tlv8Struct
 import HapVerif.Proofs.Tlv8Struct
 import HapVerif.Proofs.Tlv8Array
 import HapVerif.Gen.Schemas
+import HapVerif.Gen.Scalars
 import HapVerif.Proofs.Tlv
 
 /-! # C16 - structured TLV8 messages round-trip for every defined message type
@@ -219,5 +220,48 @@ theorem C16_counterexample_duplicate_type :
     ((encStruct (.mk [(128, .bytes), (128, .bytes)]) (.mk [some (.raw [7]), none])).toOption.bind
         (fun b => (decStruct (.mk [(128, .bytes), (128, .bytes)]) b).toOption)).map rawsOf
       = some [none, some [7]] := by decide +kernel
+
+/-! ## The integer (de)serialisers of `tlv8.py` are what the schema translator assumes
+
+`Gen/Schemas.lean` maps the field types `u8 … u128` to `.uint n` (n little-endian bytes) and `bu16` to `.buint16`.  The rows
+below are lifted from the source on every run: which function the dispatch tables name for each integer type, and what that
+function's single return statement does.  (`struct` formats without a byte-order prefix are native mode; native = little-endian
+on the hosts the library supports - trusted base.) -/
+
+/-- width of a `struct` format character that has the same size in native and standard mode -/
+def fmtWidth (c : Char) : Option Nat :=
+  if c = 'B' then some 1 else if c = 'H' then some 2 else if c = 'I' then some 4 else if c = 'Q' then some 8 else none
+
+/-- what a serialiser row writes: (number of bytes, big-endian?) -/
+def serShape (r : String × String × Nat × String × String) : Option (Nat × Bool) :=
+  if r.2.1 = "struct" then
+    match r.2.2.2.1.toList with
+    | ['>', c] => (fmtWidth c).map (fun w => (w, true))
+    | ['<', c] => (fmtWidth c).map (fun w => (w, false))
+    | [c] => (fmtWidth c).map (fun w => (w, false))
+    | _ => none
+  else if r.2.1 = "to_bytes" then
+    if r.2.2.2.1 = "little" then some (r.2.2.1, false) else if r.2.2.2.1 = "big" then some (r.2.2.1, true) else none
+  else none
+
+/-- the byte order `int.from_bytes` reads with -/
+def deserBig (r : String × String × Nat × String × String) : Option Bool :=
+  if r.2.2.2.2 = "little" then some false else if r.2.2.2.2 = "big" then some true else none
+
+/-- what the schema translator maps each integer type to: `.uint n` = (n, little), `.buint16` = (2, big) -/
+def modelShape (ty : String) : Option (Nat × Bool) :=
+  if ty = "u8" then some (1, false) else if ty = "u16" then some (2, false) else if ty = "bu16" then some (2, true)
+  else if ty = "u32" then some (4, false) else if ty = "u64" then some (8, false) else if ty = "u128" then some (16, false) else none
+
+/-- **every integer type is written with the width and byte order the model uses, and read back with the same byte order**;
+    all six types are present -/
+theorem C16_gen_scalar_tie :
+    (∀ r ∈ Gen.Scalars.rows, serShape r = modelShape r.1 ∧ deserBig r = (modelShape r.1).map (·.2) ∧ (modelShape r.1).isSome) ∧
+    Gen.Scalars.rows.map (·.1) = ["u8", "u16", "bu16", "u32", "u64", "u128"] := by decide
+
+/-- ... and this is what `.uint n` / `.buint16` do in the model -/
+theorem C16_scalar_model (n x : Nat) :
+    Tlv8.encVal (.uint n) (.int x) = Tlv8.leBytes? n x ∧
+    Tlv8.encVal .buint16 (.int x) = (Tlv8.leBytes? 2 x).map List.reverse := ⟨by simp [Tlv8.encVal], by simp [Tlv8.encVal]⟩
 
 end HapVerif.C16
